@@ -24,6 +24,125 @@ pub fn base_image() -> Result<Store, String> {
     Ok(dev.take_store())
 }
 
+// ---------------------------------------------------------------------------------------------------------
+// rejected names through every call shape that creates an entry: no side effects whatsoever
+
+/// populated volume for the rejection block: /src (file), /srcdir/child, /into/inner/deep (directories)
+pub fn base_image2() -> Result<Store, String> {
+    let dev = vol::make_device(&VolCfg::from_preset(1))?;
+    let clock = Clock::new(0);
+    let s = Session::mount(&dev, &clock, &MountOpts::default()).map_err(|e| format!("{:?}", e))?;
+    let r = s.root();
+    r.create_file("src").map_err(|e| format!("{:?}", e))?;
+    r.create_dir("srcdir").map_err(|e| format!("{:?}", e))?;
+    r.create_file("srcdir/child").map_err(|e| format!("{:?}", e))?;
+    r.create_dir("into").map_err(|e| format!("{:?}", e))?;
+    r.create_dir("into/inner").map_err(|e| format!("{:?}", e))?;
+    r.create_dir("into/inner/deep").map_err(|e| format!("{:?}", e))?;
+    r.create_file("into/file in into").map_err(|e| format!("{:?}", e))?;
+    drop(r);
+    s.unmount().map_err(|e| format!("{:?}", e))?;
+    Ok(dev.take_store())
+}
+
+pub const REJECT_SHAPES: &[&str] = &[
+    "create_file in a subdirectory",
+    "create_dir in a subdirectory",
+    "rename a file inside the root",
+    "move a file from the root into a subdirectory",
+    "move a file from a subdirectory into the root",
+    "rename a directory inside the root",
+    "move a directory from the root into a subdirectory",
+    "move a directory from a subdirectory into the root",
+    "move a directory from a subdirectory into another subdirectory",
+];
+
+#[derive(Clone, Debug, Serialize, Deserialize)]
+pub struct RejectCase {
+    pub name: String,
+    pub shape: u8,
+}
+
+pub fn eval_reject(base: &Store, c: &RejectCase) -> CaseOut {
+    let mut out = CaseOut::default();
+    out.hash = run::hash_str(&format!("reject|{}|{}", c.shape, c.name));
+    let errs = name_errors(&c.name);
+    if errs.is_empty() || c.name.contains('/') || c.name == "." || c.name == ".." {
+        out.classes.insert("outside_domain".into(), 1);
+        return out;
+    }
+    out.nontrivial = true;
+    let shape = c.shape as usize % REJECT_SHAPES.len();
+    let what = REJECT_SHAPES[shape];
+    let dev = MemDev::new(base.clone());
+    dev.with(|d| d.budget = 5_000_000);
+    let before = dev.bytes();
+    let devh = dev.handle();
+    let nm = c.name.clone();
+    let r = guard(move || {
+        let clock = Clock::new(500_000_000_000);
+        let s = Session::mount(&devh, &clock, &MountOpts::default()).map_err(|e| format!("mount: {:?}", e))?;
+        let root = s.root();
+        let into = root.open_dir("into").map_err(|e| format!("{:?}", e))?;
+        let inner = root.open_dir("into/inner").map_err(|e| format!("{:?}", e))?;
+        let res = match shape {
+            0 => into.create_file(&nm).map(|_| ()),
+            1 => into.create_dir(&nm).map(|_| ()),
+            2 => root.rename("src", &root, &nm),
+            3 => root.rename("src", &into, &nm),
+            4 => into.rename("file in into", &root, &nm),
+            5 => root.rename("srcdir", &root, &nm),
+            6 => root.rename("srcdir", &into, &nm),
+            7 => into.rename("inner", &root, &nm),
+            _ => inner.rename("deep", &into, &nm),
+        };
+        let res = res.map_err(|e| ek(&e));
+        drop(inner);
+        drop(into);
+        drop(root);
+        s.unmount().map_err(|e| format!("unmount: {:?}", e))?;
+        Ok::<_, String>(res)
+    });
+    match r {
+        Caught::Panic(p) => out.violation = Some(format!("{} with the name {:?} panicked: {}", what, c.name, p)),
+        Caught::Ok(Err(e)) => out.violation = Some(format!("{} with the name {:?}: {}", what, c.name, e)),
+        Caught::Ok(Ok(Ok(()))) => out.violation = Some(format!("{} with the name {:?} succeeded although the name is not acceptable ({:?} applies)", what, c.name, errs)),
+        Caught::Ok(Ok(Err(k))) => {
+            if !errs.contains(&k) {
+                out.violation = Some(format!("{} with the name {:?} failed with {:?}, expected one of {:?}", what, c.name, k, errs));
+            } else {
+                let after = dev.bytes();
+                if let Some(p) = before.iter().zip(after.iter()).position(|(a, b)| a != b) {
+                    out.violation = Some(format!("{} with the name {:?} was rejected with {:?} but changed the image (first difference at byte {})", what, c.name, k, p));
+                }
+            }
+        }
+    }
+    if dev.with(|d| d.budget_hit) && out.violation.is_none() {
+        out.violation = Some(format!("{} with the name {:?} exceeded the device-call budget", what, c.name));
+    }
+    out
+}
+
+pub fn rejected_names() -> Vec<String> {
+    let mut v: Vec<String> = vec![String::new(), "a".repeat(256), "a".repeat(300), "é".repeat(128), "語".repeat(86), " ".repeat(0)];
+    for ch in 0u8..128 {
+        let c = ch as char;
+        if c == '/' {
+            continue;
+        }
+        v.push(c.to_string());
+        v.push(format!("a{}b", c));
+        v.push(format!("long name with {} in it.txt", c));
+    }
+    v.push("tail\u{FFFF}".to_string());
+    v.push("\u{FFFF}".to_string());
+    v.retain(|n| !name_errors(n).is_empty());
+    v.sort();
+    v.dedup();
+    v
+}
+
 fn in_domain(name: &str) -> bool {
     !name.contains('/') && name != "." && name != ".." && fold(name) != "SRC"
 }
@@ -229,6 +348,11 @@ fn fail(c: &NameCase, m: String) -> Failure {
 }
 
 pub fn replay(v: &serde_json::Value) -> Result<Option<String>, String> {
+    if v["kind"].as_str() == Some("reject") || v["case"].get("shape").is_some() {
+        let c: RejectCase = serde_json::from_value(v["case"].clone()).map_err(|e| format!("bad case: {}", e))?;
+        let base = base_image2()?;
+        return Ok(eval_reject(&base, &c).violation);
+    }
     let c: NameCase = serde_json::from_value(v["case"].clone()).map_err(|e| format!("bad case: {}", e))?;
     let base = base_image()?;
     Ok(eval(&base, &c).violation)
@@ -243,7 +367,7 @@ fn name_with(c: char, pos: u8) -> String {
 }
 
 pub fn run(tier: Tier, seed: u64) -> i32 {
-    let rule = "names through create_file, create_dir and rename on a fresh tiny volume each: every ASCII character alone and embedded; every BMP scalar (quick: one call kind per (character, position), thorough: all three) and 2000 astral ones as first / middle / last character; byte lengths 0..300 built from 1-, 2- and 3-byte characters; random strings; oracle = independent acceptance predicate (1..=255 UTF-8 bytes, documented character set) => rejected names fail with a matching error kind and leave the image byte-identical, accepted names are listed unit for unit, found by name, case variants and alias (read by refdec) and not found by near-misses (folding = std char::to_uppercase); non-trivial = accepted non-ASCII or >= 14 units, or rejected; distinct by (name, call kind)";
+    let rule = "names through create_file, create_dir and rename on a fresh tiny volume each: every ASCII character alone and embedded; every BMP scalar (quick: one call kind per (character, position), thorough: all three) and 2000 astral ones as first / middle / last character; byte lengths 0..300 built from 1-, 2- and 3-byte characters; random strings; oracle = independent acceptance predicate (1..=255 UTF-8 bytes, documented character set) => rejected names fail with a matching error kind and leave the image byte-identical, accepted names are listed unit for unit, found by name, case variants and alias (read by refdec) and not found by near-misses (folding = std char::to_uppercase); plus every rejected name of a fixed list (empty, 256/300 bytes in 1-, 2-, 3-byte characters, every unacceptable ASCII character alone / embedded / in a long name, U+FFFF) through nine call shapes that create an entry (create in a subdirectory, rename, file and directory moves in every direction): matching error kind and a byte-identical image; non-trivial = accepted non-ASCII or >= 14 units, or rejected; distinct by (name, call kind)";
     let mut rep = Report::new("C15", tier, seed, "exploration", rule);
     rep.assume("'.' and '..' and names containing '/' are outside the domain (reserved entries / path separator)");
     rep.assume("U+FFFF is not part of the accepted set: it is the long-name padding value and cannot be stored");
@@ -346,6 +470,26 @@ pub fn run(tier: Tier, seed: u64) -> i32 {
         });
         d.exhaustive = true;
         rep.add(d);
+    }
+    // F: every rejected name through every call shape that creates an entry (incl. directory moves): no side effects
+    if !rep.failed() {
+        let base2 = match base_image2() {
+            Ok(b) => b,
+            Err(e) => {
+                eprintln!("{}", e);
+                return 2;
+            }
+        };
+        let names = rejected_names();
+        let nshapes = REJECT_SHAPES.len() as u64;
+        let mut fblk = run::run_indexed("rejected_names_through_every_entry_creating_call", names.len() as u64 * nshapes, |i, blk| {
+            let c = RejectCase { name: names[(i / nshapes) as usize].clone(), shape: (i % nshapes) as u8 };
+            let out = eval_reject(&base2, &c);
+            blk.record(&out, || serde_json::to_value(&c).unwrap());
+            out.violation.map(|m| Failure { message: m, case: serde_json::to_value(&c).unwrap(), kind: "reject".into() })
+        });
+        fblk.exhaustive = true;
+        rep.add(fblk);
     }
     // E: random strings
     if !rep.failed() {
